@@ -19,8 +19,25 @@ use crate::util::*;
 use kira::sound::static_sound::{StaticSoundData, StaticSoundHandle, StaticSoundSettings};
 use kira::sound::{EndPosition, PlaybackPosition, Region, Sound, SoundData};
 use kira::{Decibels, Frame, Panning, PlaybackRate, StartTime, Value};
+use std::sync::atomic::{AtomicU64, Ordering};
 use std::sync::Arc;
 use std::time::Duration;
+
+/// how often each oracle's premise held (printed to stderr when `KV_ORACLE_STATS` is set)
+static CHECKS: [AtomicU64; 8] = [const { AtomicU64::new(0) }; 8];
+const CHECK_NAMES: [&str; 8] = [
+	"walk_frames",
+	"seek_lands",
+	"silent_chunks",
+	"frozen_position",
+	"finite_stopped",
+	"dc_envelope_frames",
+	"stopped_final_ops",
+	"command_edges",
+];
+fn tick(i: usize) {
+	CHECKS[i].fetch_add(1, Ordering::Relaxed);
+}
 
 fn lcg_next(s: u64) -> u64 {
 	s.wrapping_mul(6364136223846793005).wrapping_add(1442695040888963407)
@@ -348,6 +365,7 @@ fn exec(case: &[String], out: &mut Out) {
 								_ => 5,
 							}
 						};
+						tick(7);
 						if !command_edge(name, immediate, s, next) {
 							out.oracle_fail("static_command_edge", l);
 						}
@@ -367,6 +385,9 @@ fn exec(case: &[String], out: &mut Out) {
 				// --- C03: frozen position while not advancing ---
 				let pos = r.handle.position().to_bits();
 				if let Some((s_prev, p_prev)) = r.last_start_pos {
+					if matches!(s_prev, 2 | 3 | 6) && r.quiet_since_start {
+						tick(3);
+					}
 					if matches!(s_prev, 2 | 3 | 6) && r.quiet_since_start && pos != p_prev {
 						out.oracle_fail("static_position_moved_while_not_advancing", l);
 					}
@@ -442,6 +463,9 @@ fn exec(case: &[String], out: &mut Out) {
 				if !(update_edge(s_before, s_after) || s_after == 6) {
 					out.oracle_fail("static_update_edge", l);
 				}
+				if matches!(s_after, 2 | 3) || s_before == 6 {
+					tick(2);
+				}
 				if (matches!(s_after, 2 | 3) || s_before == 6) && !all_zero {
 					out.oracle_fail("static_not_silent_while_not_advancing", l);
 				}
@@ -477,6 +501,7 @@ fn exec(case: &[String], out: &mut Out) {
 				if dc_unit && advancing_after {
 					for f in &buf {
 						let v = f.left;
+						tick(5);
 						if !(v >= 0.0 && v <= 1.0 + 1e-6) || f.right != f.left {
 							out.oracle_fail("static_dc_envelope_range", l);
 							break;
@@ -533,6 +558,7 @@ fn exec(case: &[String], out: &mut Out) {
 									}
 									(Some(_), None) => want >= r.cfg.n,
 								};
+								tick(1);
 								if !ok {
 									out.oracle_fail("static_seek_did_not_land", l);
 								}
@@ -555,6 +581,7 @@ fn exec(case: &[String], out: &mut Out) {
 							}
 							continue;
 						}
+						tick(0);
 						if d != r.expect {
 							out.oracle_fail("static_rate1_walk", l);
 							r.plain = false;
@@ -574,7 +601,17 @@ fn exec(case: &[String], out: &mut Out) {
 				if !r.loop_ever
 					&& !r.any_command
 					&& r.gate_always_open
-					&& r.cfg.delay_ns.is_none()
+					&& r.cfg.start_imm
+					&& r.cfg.rate.map(|x| x != 0.0).unwrap_or(false)
+					&& r.source_advance >= (r.cfg.n + 8) as f64
+					&& s_after == 6
+				{
+					tick(4);
+				}
+				if !r.loop_ever
+					&& !r.any_command
+					&& r.gate_always_open
+					&& r.cfg.start_imm
 					&& r.cfg.rate.map(|x| x != 0.0).unwrap_or(false)
 					&& r.source_advance >= (r.cfg.n + 8) as f64
 					&& s_after != 6
@@ -624,6 +661,9 @@ fn exec(case: &[String], out: &mut Out) {
 		}
 		// --- C03: Stopped is final ---
 		let s_now = state_num(r.handle.state());
+		if r.ever_stopped {
+			tick(6);
+		}
 		if r.ever_stopped && (s_now != 6 || !r.sound.finished()) {
 			out.oracle_fail("static_stopped_left", l);
 		}
@@ -712,6 +752,11 @@ pub fn run(ops: &[String]) -> Vec<String> {
 	let mut trace = run_cases(ops, Some(Duration::from_millis(4000)), exec);
 	let extra = fault_oracles(ops, &trace);
 	trace.extend(extra);
+	if std::env::var("KV_ORACLE_STATS").is_ok() {
+		for (i, n) in CHECK_NAMES.iter().enumerate() {
+			eprintln!("oracle-premise {} {}", n, CHECKS[i].load(Ordering::Relaxed));
+		}
+	}
 	trace
 }
 
@@ -901,6 +946,8 @@ fn gen_case(rng: &mut Rng, out: &mut Vec<String>, stats: &mut Stats) {
 	let reverse = n > 0 && rng.chance(3, 10);
 	let start = if reverse {
 		rng.below(n)
+	} else if dc {
+		0
 	} else {
 		match rng.below(8) {
 			0..=3 => 0,
